@@ -1484,6 +1484,13 @@ class _IndexGOMixin:
         Args:
             values: can be a generator.
         '''
+        # validate all values before growing, so that a duplicate leaves the index unchanged
+        values = tuple(values) # might be a generator
+        observed: tp.Set[tp.Hashable] = set()
+        for value in values:
+            if value in observed or self.__contains__(value): #type: ignore
+                raise KeyError(f'duplicate key append attempted: {value}')
+            observed.add(value)
         for value in values:
             self.append(value)
 
